@@ -48,6 +48,21 @@ CLAIMED['C03'] = dict(
     technique='TLA+ grammar+evaluator spec; TLC bounded-exhaustive string enumeration replayed into evaluator(); TLC trace validation',
     design='3/C03')
 
+CLAIMED['C10'] = dict(
+    text='ParserCache.tla models the shared parser as a state machine (cache keyed by the space-stripped string, scratch '
+         'sets filled by grammar callbacks -- also along failing alternatives --, the finally-reset, hand-over of the '
+         'usage sets) with one action per code block; TLC checks HistoryIndependent (every call answers what a fresh parser '
+         'would, i.e. ExprEval!Outcome), ScratchEmpty, CacheSound and that every call ends (liveness) for all call '
+         'histories of length <= 3 (thorough 4) over 14 strings x {parse, evaluate}, and that the model without the reset '
+         'violates the property (vacuity guard). Every TLC history is replayed on the module-level PARSER (never reset '
+         'between histories) and on a per-history parser, each call compared with the model, with a fresh MathParser and '
+         'for aliasing of returned usage sets. Usage exactness is checked on every accepted string of the C03 token and '
+         'character models; long random interleavings with grader calls and sampler construction in between are validated '
+         'by the trace spec ExprTrace.',
+    note='Trusted: TLC; the rendering of model strings; cache-key / scratch-set state comparison is drift only.',
+    technique='TLA+ state machine of the parser cache checked by TLC (safety+liveness); TLC histories replayed on the real shared parser; TLC trace validation',
+    design='3/C10')
+
 REASON_PENDING = 'check not built yet in this revision; the design (DESIGN.md section 3) covers it and it will be claimed once its spec and binding exist'
 
 
